@@ -180,6 +180,8 @@ class Verifier(ExprMixin, StmtMixin, CallMixin, LibMixin, FoldMixin, Executor):
             return self.obligations
         self.rets_for_events = rets
         split = c is not None and "paths" in c.flags and not fr.defers
+        if split and c.of("cover"):
+            raise Unsupported("cover clauses in a path-split function")
         if split:
             self.frame_spec = None
             unbound = set()
@@ -235,6 +237,13 @@ class Verifier(ExprMixin, StmtMixin, CallMixin, LibMixin, FoldMixin, Executor):
                 self.fp_defs = set(i_ for i_ in self.fp_defs if i_ < n0)
                 self.oblige_final(merged, "ensures", cl["label"], g, cl.get("ln"), cl["text"], cl.get("canary"))
                 self.obligations[-1].extra = extra
+            for cl in c.of("cover"):
+                # reachability: some execution that satisfies the precondition returns with the condition true
+                n0 = len(self.facts)
+                g = self.eval_clause(cl, merged, results=vals, old=self.pre_state)
+                extra = self.facts.cut(n0)
+                self.oblige_final(merged, "cover", cl["label"], z3.Not(g), cl.get("ln"), cl["text"])
+                self.obligations[-1].extra = extra
         return self.obligations
 
     def tracked_events(self):
@@ -243,17 +252,23 @@ class Verifier(ExprMixin, StmtMixin, CallMixin, LibMixin, FoldMixin, Executor):
         t = getattr(self.prog, "_tracked", None)
         if t is None:
             t = set()
+            import re as _re
             for pkg in self.prog.packages.values():
                 for c in pkg.contracts.values():
                     txt = (c.flags.get("emits") or "")
                     t |= set(x.strip() for x in txt.split(",") if x.strip())
+                    # operations that some clause counts, orders or reads are tracked too: a callee that performs one
+                    # must declare it, or its callers would count wrongly
+                    for cl in c.clauses:
+                        t |= set(_re.findall(r'zz(?:Calls|Seq|Arg|Ret|Recv)(?:\[[^\]]*\])?\("([^"]+)"', cl.get("text") or ""))
+            t = set(x for x in t if not x.startswith("select.arm:"))
             self.prog._tracked = t
         return t
 
     def check_emits(self, func, st):
         """A function that declares `emits` performs no other tracked operation (so callers may rely on the list)."""
         c = func.contract
-        if c is None or "emits" not in c.flags:
+        if c is None or not (c.clauses or c.flags):
             return
         allowed = set(self.contract_emits(func))
         for key, val in sorted(st.ghost.items(), key=lambda kv: str(kv[0])):
@@ -305,7 +320,7 @@ class Verifier(ExprMixin, StmtMixin, CallMixin, LibMixin, FoldMixin, Executor):
                             if ft.under().k == "slice":
                                 from .sym import HeapLV
                                 cur = HeapLV(pv.oid, pv.elem, m["field"], ft).get(self, st)
-                                fs["regions"].append((cur.rid, cur.off + cur.ln))
+                                fs["regions"].append((cur.rid, None if m.get("contents") else cur.off + cur.ln))
                         except (Unsupported, IndexError):
                             pass
                 else:
